@@ -7,18 +7,21 @@
          ret = asn1c_compile_expr(arg, NULL);
          if(ret) { FATAL("Cannot compile ..."); return ret; }         -- asn1c.c turns this into exit(EX_SOFTWARE) = 70
      }
+     if(compile_failures) return -1;                       -- a component failed somewhere below an expression that returned 0
      asn1c_compile_expr(expr):
          if(expr->lhs_params && expr->spec_index == -1) {             -- a parameterized type: one clone per specialization
              ret = 0;
              for(i = 0; i < pspecs_count; i++) { ret = asn1c_compile_expr(pspec[i].my_clone); if(ret) break; }
          } else ret = type_cb(arg);                                   -- the emitter of the construct
-         if(ret == -1) { FATAL("Cannot compile ..."); OUT("#error Cannot compile ..."); }
+         if(ret == -1) { compile_failures++; FATAL("Cannot compile ..."); OUT("#error Cannot compile ..."); }
          return ret;
      type_cb compiles the components through EMBED(v) = `_tmp.default_cb(&_tmp, NULL);`  -- THE RESULT IS DROPPED
 
    An emission unit is therefore a tree: a type with its own verdict (what its emitter says apart from the components) and
-   its embedded components, or a parameterized type with its specializations.  The model keeps the code's behaviour, the
-   dropped result included (findings C10-instance-of-member-error-directive, C10-unsupported-useful-types-no-skeleton). *)
+   its embedded components, or a parameterized type with its specializations.  The model keeps the code's behaviour: the
+   status a component returns is still dropped by its parent (`ret`), the failure counter is what reaches the exit status
+   (repair of C10-component-emitter-failure-assert; it retired C10-instance-of-member-error-directive and the exit-0 half of
+   C10-unsupported-useful-types-no-skeleton). *)
 From Coq Require Import ZArith List Bool.
 Import ListNotations.
 Open Scope Z_scope.
@@ -74,7 +77,11 @@ Fixpoint fatals (u : eunit) : nat :=
 Definition top_ret (us : list eunit) : Z := first_failure ret us.
 Definition top_fatals (us : list eunit) : nat :=
   lines_until ret (fun u => (fatals u + (if (ret u =? 0)%Z then 0 else 1))%nat) us.
-Definition exit_status (us : list eunit) : Z := if top_ret us =? 0 then 0 else 70.
+(* `compile_failures`: asn1c_compile_expr counts every expression it could not compile (one per `FATAL: Cannot compile`
+   line, whoever called it: top level, specialization loop or EMBED); after the loop over the top-level expressions
+   asn1_compile returns -1 when the count is not zero *)
+Definition exit_status (us : list eunit) : Z :=
+  if (top_ret us =? 0) && Nat.eqb (top_fatals us) 0 then 0 else 70.
 
 (* Spec side: every unit, component and specialization can be emitted *)
 Fixpoint all_ok (u : eunit) : bool :=
@@ -83,7 +90,7 @@ Fixpoint all_ok (u : eunit) : bool :=
   | UParam ss => forallb all_ok ss
   end.
 
-(* the domain on which the code is right: no EMBEDded component fails *)
+(* no EMBEDded component fails: the domain on which the status returned by asn1c_compile_expr alone tells the verdict *)
 Fixpoint members_ok (u : eunit) : bool :=
   match u with
   | UType _ ms => forallb all_ok ms
